@@ -12,11 +12,11 @@ from concurrent.futures import ThreadPoolExecutor
 from . import common as C
 
 INNER_LIST = ['<<[k |-> "int"]>>', '<<[k |-> "int"], [k |-> "slice"]>>', '<<[k |-> "chan"], [k |-> "int"]>>',
-              '<<[k |-> "pint"], [k |-> "dash"], [k |-> "str"]>>', '<<[k |-> "map"], [k |-> "func"], [k |-> "time"]>>']
-INNER = ('{ <<[k |-> "int"]>>, <<[k |-> "int"], [k |-> "slice"]>>, <<[k |-> "chan"], [k |-> "int"]>>, '
-         '<<[k |-> "pint"], [k |-> "dash"], [k |-> "str"]>>, <<[k |-> "map"], [k |-> "func"], [k |-> "time"]>> }')
+              '<<[k |-> "pint"], [k |-> "dash"], [k |-> "str"]>>', '<<[k |-> "map"], [k |-> "func"], [k |-> "time"]>>',
+              '<<[k |-> "dashref"], [k |-> "int"]>>']
+INNER = "{ %s }" % ", ".join(INNER_LIST)
 ALL_LEAF = '{"int","str","dur","time","slice","map","arr","pint"}'
-ALL_SKIP = '{"dash","chan","func","unexp"}'
+ALL_SKIP = '{"dash","dashref","chan","func","unexp"}'
 ALL_STRUCT = '{"struct","pstruct","emb"}'
 
 
